@@ -662,9 +662,25 @@ impl Gen {
             match site_s.as_str() {
                 "vassign_value" => format!("    {} := {};\n", kw, x),
                 "sassign_value" => format!("    {} <= {};\n", g.r(sig_sink.unwrap(), "sink_target"), x),
-                "if_cond" => format!("    if {} > 0 then\n      null;\n    end if;\n", x),
+                "if_cond" => {
+                    if g.rng.chance(1, 3) {
+                        let l = g.ent("il", "seq", None, None, false);
+                        let endl = if g.rng.chance(1, 2) { format!(" {}", g.r(l, "endlabel")) } else { String::new() };
+                        format!("    {} : if {} > 0 then\n      null;\n    end if{};\n", g.d(l), x, endl)
+                    } else {
+                        format!("    if {} > 0 then\n      null;\n    end if;\n", x)
+                    }
+                }
                 "elsif_cond" => format!("    if {} > 0 then\n      null;\n    elsif {} > 1 then\n      null;\n    else\n      null;\n    end if;\n", kr, x),
-                "case_expr" => format!("    case {} is\n      when 0 => null;\n      when others => null;\n    end case;\n", x),
+                "case_expr" => {
+                    if g.rng.chance(1, 3) {
+                        let l = g.ent("cl", "seq", None, None, false);
+                        let endl = if g.rng.chance(1, 2) { format!(" {}", g.r(l, "endlabel")) } else { String::new() };
+                        format!("    {} : case {} is\n      when 0 => null;\n      when others => null;\n    end case{};\n", g.d(l), x, endl)
+                    } else {
+                        format!("    case {} is\n      when 0 => null;\n      when others => null;\n    end case;\n", x)
+                    }
+                }
                 "case_choice" => {
                     let _ = stat2;
                     format!("    case {} is\n      when {} => null;\n      when others => null;\n    end case;\n", kr, x)
@@ -813,6 +829,82 @@ impl Gen {
         self.site_stats.push(site.to_string());
         true
     }
+}
+
+
+/// Post-pass over the rendered text: every construct that may repeat its name after `end ...`
+/// (`end record [name]`, `end protected [body] [name]`, `end units [name]`, `end component [name]`,
+/// `end function|procedure [designator]`, `end package body [name]`) gets the closing name at random.
+/// A closing name is NOT a reference: it is printed without a marker.
+fn strip_marks(line: &str) -> String {
+    let mut out = String::new();
+    let mut inside = false;
+    for c in line.chars() {
+        if c == '@' {
+            inside = !inside;
+            continue;
+        }
+        if !inside {
+            out.push(c);
+        }
+    }
+    out
+}
+pub fn close_names(text: &str, rng: &mut Rng, stats: &mut Vec<String>) -> String {
+    let mut stack: Vec<(&'static str, String)> = vec![];
+    let mut out = String::with_capacity(text.len() + 256);
+    for line in text.split_inclusive('\n') {
+        let clean = strip_marks(line);
+        let t = clean.trim();
+        let words: Vec<&str> = t.split_whitespace().collect();
+        let mut line_out = line.to_string();
+        // one-line physical type: `type N is range .. units a; b = 10 a; end units;`
+        if t.starts_with("type ") && t.contains(" units ") && t.ends_with("end units;") {
+            if rng.chance(1, 2) {
+                line_out = line.replacen("end units;", &format!("end units {};", words[1]), 1);
+                stats.push("closing_name_units".into());
+            }
+            out.push_str(&line_out);
+            continue;
+        }
+        if t.starts_with("type ") && t.ends_with(" is record") {
+            stack.push(("record", words[1].to_string()));
+        } else if t.starts_with("type ") && t.ends_with(" is protected body") {
+            stack.push(("protected body", words[1].to_string()));
+        } else if t.starts_with("type ") && t.ends_with(" is protected") {
+            stack.push(("protected", words[1].to_string()));
+        } else if t.starts_with("component ") && t.ends_with(" is") {
+            stack.push(("component", words[1].to_string()));
+        } else if t.starts_with("package body ") && t.ends_with(" is") {
+            stack.push(("package body", words[2].to_string()));
+        } else if (t.starts_with("function ") || t.starts_with("impure function ") || t.starts_with("procedure ")) && t.ends_with(" is") {
+            let k = if t.starts_with("procedure ") { "procedure" } else { "function" };
+            let idx = if t.starts_with("impure ") { 2 } else { 1 };
+            let mut name = words[idx].to_string();
+            if let Some(p) = name.find('(') {
+                name.truncate(p);
+            }
+            stack.push((k, name));
+        } else if t.starts_with("end ") {
+            for k in ["record", "protected body", "protected", "component", "package body", "function", "procedure"] {
+                let bare = format!("end {};", k);
+                let with_name = format!("end {} ", k);
+                if t == bare || t.starts_with(&with_name) {
+                    // `end protected body` also starts with `end protected `: the longer keyword is tried first
+                    let top = stack.pop();
+                    if let Some((tk, name)) = top {
+                        if tk == k && t == bare && rng.chance(1, 2) {
+                            line_out = line.replacen(&bare, &format!("end {} {};", k, name), 1);
+                            stats.push(format!("closing_name_{}", k.replace(' ', "_")));
+                        }
+                    }
+                    break;
+                }
+            }
+        }
+        out.push_str(&line_out);
+    }
+    out
 }
 
 include!("gen_units.rs");
